@@ -190,7 +190,9 @@ def _is_instance(obj: Any, type_: Any, type_vars: Dict[TypeVar_, Any], context: 
                         f'For TypeVar {type_} exists a type conflict: value {obj} has type {type(obj)} but TypeVar {type_} '
                         f'was previously matched to type {other}')
 
-        type_vars[type_] = type(obj)
+        if type_ not in type_vars:
+            type_vars[type_] = type(obj)
+
         return True
 
     if hasattr(typing, 'Unpack') and getattr(type_, '__origin__', None) == typing.Unpack:
